@@ -99,6 +99,23 @@ func loadPkg(dir string, includeTests bool) *pkg {
 								}
 							} else if d.Tok == token.VAR {
 								p.vars[id.Name] = vs.Values[i]
+								// an initialiser that calls something or holds a closure (sync.Pool.New) is code
+								// that runs outside every declared function: a pseudo function "var@name"
+								has := false
+								ast.Inspect(vs.Values[i], func(n ast.Node) bool {
+									switch n.(type) {
+									case *ast.FuncLit, *ast.CallExpr:
+										has = true
+									}
+									return !has
+								})
+								if has {
+									p.funcs["var@"+id.Name] = &ast.FuncDecl{
+										Name: ast.NewIdent("var@" + id.Name),
+										Type: &ast.FuncType{Params: &ast.FieldList{}},
+										Body: &ast.BlockStmt{List: []ast.Stmt{&ast.ExprStmt{X: vs.Values[i]}}},
+									}
+								}
 							}
 						}
 					}
